@@ -1,6 +1,6 @@
 PROP = {
     "level": "proof",
-    "legs": ["c16-class-0", "c16-class-1", "c16-class-2", "c16-class-3"],
+    "legs": ["c16-class-0", "c16-class-1", "c16-class-2", "c16-class-3", "c16-ops", "c16-sweep"],
     "trusted_base": TB_COMMON + [
         "oracles unicode.Is/IsSpace/IsWordChar per category name, unicode.SimpleFold, unicode.ToLower: universally quantified in the theorems; the tables used by each case are dumped from the running Go toolchain into the case",
         "hook /repo/syntax/verif_charclass.go (build tag verif, add-only): field accessors of CharSet and wrappers of its unexported methods",
